@@ -25,7 +25,7 @@ ASSUMPTIONS = [
     "hold for every schedule of a serial server, so a pass is never timing-dependent",
     "each request carries an extra top-level key (rid) the protocol ignores, used to tag exchanges",
 ]
-REQUIRED_LABELS = {t: ["clients>=8", "overlap-in-flight", "req:advance", "req:sign_auth",
+REQUIRED_LABELS = {t: ["clients>=8", "overlap-in-flight", "link-faults", "req:advance", "req:sign_auth",
                        "req:sign_unauth", "req:state", "req:signerHb", "req:getPubKey"]
                    for t in ("quick", "thorough")}
 KINDS = ["sign_unauth", "sign_auth", "advance", "state", "signerHb", "getPubKey"]
@@ -39,7 +39,14 @@ def cases(draw, tier):
     for _ in range(n):
         clients.append({"offset_ms": draw(st.integers(0, 5)),
                         "script": draw(st.lists(st.sampled_from(KINDS), min_size=1, max_size=5))})
-    return {"clients": clients,
+    faults = []
+    if draw(st.integers(0, 2)) == 0:
+        # link failures while several clients are connected (the repair happens in a request)
+        # (a single one: a second failure could hit the repeated bring-up, where stopping is
+        #  what C09 prescribes)
+        faults = draw(st.lists(st.tuples(st.integers(0, 80), st.sampled_from(["read", "write"])),
+                               min_size=1, max_size=1))
+    return {"clients": clients, "faults": [list(f) for f in faults],
             "delays_us": draw(st.lists(st.integers(0, 3000), min_size=1, max_size=8))}
 
 
@@ -83,6 +90,7 @@ def run_case(c):
                 state["inflight"] -= 1
     w.delay = delay
     w.tag = lambda: getattr(cur, "rid", None)
+    faulty = bool(c.get("faults"))
 
     def sig_for(held):
         if "hash" in held:
@@ -102,6 +110,8 @@ def run_case(c):
     from checks.c03 import _free_server
     srv, t, result, port = _free_server(p)
     mark = len(w.log)
+    for ordinal, kind in c.get("faults", []):
+        w.faults[w.nex + ordinal] = kind
     results = {}
     errors = []
     retries = [0]
@@ -167,6 +177,8 @@ def run_case(c):
                         "inside their block; run order %s" % (dup[:4], runs[:40]))
     # --- invariant 3: every request's block is in this process's log
     missing = [rid for rid in results if rid not in set(runs)]
+    if faulty:
+        missing = []      # a request answered -905 during a failed repair sends no APDU
     if missing:
         raise Violation("exchanges-not-on-this-device", "requests %s were answered but their "
                         "exchanges are not in the device log of process %d" % (missing[:5], pid))
@@ -178,6 +190,9 @@ def run_case(c):
             raise Violation("bad-reply", "request %s (%s) answered %r" % (rid, kind, reply[:100]))
         labels.append("req:" + kind)
         ci, j = [int(x) for x in rid.split(".")]
+        if faulty and rep["errorcode"] == -905:
+            labels.append("device-error-reply")
+            continue
         if rep["errorcode"] != 0:
             raise Violation("request-failed", "request %s (%s) -> %r" % (rid, kind, rep))
         if kind == "sign_unauth":
@@ -210,6 +225,14 @@ def run_case(c):
         labels.append("overlap-in-flight")
     if len(c["clients"]) >= 8:
         labels.append("clients>=8")
+    if faulty:
+        labels.append("link-faults")
+    # exchanges made outside any request (e.g. by a helper thread) while requests are served
+    stray = [e for e in w.log[mark:] if e[0] == "apdu" and e[3] is None]
+    if stray:
+        raise Violation("exchange-outside-any-request", "%d device exchanges were made by a "
+                        "thread that is not serving a request, e.g. %s" % (
+                            len(stray), stray[0][2].hex()))
     if retries[0]:
         labels.append("connect-retries")
     return Out(labels, overlap)
